@@ -4,109 +4,9 @@
 // (a) totality on one string
 // ------------------------------------------------------------------------------------------
 
-/// narrow attribution of "strict accepts, lenient differs" to the known causes
-fn classify_lenient_diff(s: &str, strict: &UserInputAst, lenient: &UserInputAst, errs: &[String]) -> &'static str {
-    let js = serde_json::to_string(strict).unwrap_or_default();
-    let jl = serde_json::to_string(lenient).unwrap_or_default();
-    let count = |h: &str, n: &str| h.matches(n).count();
-    let cs: Vec<char> = s.chars().collect();
-    let space_before_close = cs.windows(2).any(|w| w[0].is_whitespace() && (w[1] == ']' || w[1] == '}'));
-    if count(&jl, "\"type\":\"regex\"") > count(&js, "\"type\":\"regex\"") && s.contains('/') {
-        // the lenient grammar commits to a regex at every `/`, the strict one falls back to a word
-        KEY_LENIENT_REGEX
-    } else if errs.iter().any(|e| e == "missing range delimiter") && space_before_close && count(&js, "\"type\":\"range\"") >= 1 {
-        KEY_LENIENT_RANGE_SPACE
-    } else if s.contains("IN") && cs.windows(2).any(|w| w[0] == '[' && w[1].is_whitespace()) && count(&js, "\"type\":\"set\"") >= 1 {
-        // `IN [ 'a']` / `IN [ ]`: after `[` + whitespace the lenient grammar reads quotes as part of a
-        // word, or reports "expected word" for the empty set
-        KEY_LENIENT_SET_QUOTE
-    } else if cs.windows(4).any(|w| w[0] == 'N' && w[1] == 'O' && w[2] == 'T' && w[3].is_whitespace() && w[3] != ' ') {
-        // strict: `NOT` multispace1; lenient: the literal "NOT "
-        KEY_LENIENT_NOT
-    } else if count(&jl, "\"type\":\"range\"") > count(&js, "\"type\":\"range\"") && (s.contains('<') || s.contains('>')) {
-        // the lenient grammar commits to a range at `<`/`>`, the strict one falls back to a word
-        KEY_LENIENT_RANGE_COMMIT
-    } else if cs.windows(5).any(|w| w[0] == 'N' && w[1] == 'O' && w[2] == 'T' && w[3].is_whitespace() && (w[4] == ':' || w[4].is_whitespace())) && js.contains("\"field_name\":\"NOT\"") {
-        // `NOT :b`: strict reads a field named NOT, lenient the negation keyword
-        KEY_LENIENT_NOT_FIELD
-    } else if s.contains('\\') && count(&js, "\"type\":\"range\"") >= 1 && count(&jl, "\"type\":\"range\"") >= 1 && (s.contains('<') || s.contains('>')) {
-        // `< sp\ ace`: the strict range bound (relaxed_word) knows no escapes, the lenient one does
-        KEY_LENIENT_RANGE_ESCAPE
-    } else if neg_number_touching(&cs) ||
-        errs.iter().any(|e| e == "missing space") || touching_family(strict, lenient, errs) {
-        // the strict grammar accepts clauses that touch (`a(b)`, `"a"b`, `a^2b`, `-1.~5`) and ends a
-        // word at quotes/brackets; the lenient grammar wants a space and lets a word run on
-        KEY_LENIENT_ADJACENT
-    } else {
-        "C16:lenient-differs-from-strict"
-    }
-}
-
-/// `-5s`: strict reads the number `-5` and a touching word `s`
-fn neg_number_touching(cs: &[char]) -> bool {
-    let mut i = 0;
-    while i + 1 < cs.len() {
-        if cs[i] == '-' && cs[i + 1].is_ascii_digit() {
-            let mut j = i + 1;
-            while j < cs.len() && (cs[j].is_ascii_digit() || cs[j] == '.') {
-                j += 1;
-            }
-            if j < cs.len() && !cs[j].is_whitespace() && !")^~*]}".contains(cs[j]) {
-                return true;
-            }
-            i = j;
-        } else {
-            i += 1;
-        }
-    }
-    false
-}
-
-/// lenient kept together what strict split (fewer leaves, no error), or a lenient unquoted word
-/// contains a character at which the strict `word` rule ends and strict has no such word
-fn touching_family(strict: &UserInputAst, lenient: &UserInputAst, errs: &[String]) -> bool {
-    let vs = serde_json::to_value(strict).unwrap_or(Value::Null);
-    let vl = serde_json::to_value(lenient).unwrap_or(Value::Null);
-    let ws = unquoted_words(&vs);
-    let wl = unquoted_words(&vl);
-    let special = |w: &String| w.chars().any(|c| "`{}\"'[]()".contains(c));
-    if wl.iter().any(|w| special(w) && !ws.contains(w)) {
-        return true;
-    }
-    let leaves = |v: &Value| {
-        let t = v.to_string();
-        ["\"type\":\"literal\"", "\"type\":\"range\"", "\"type\":\"set\"", "\"type\":\"all\"", "\"type\":\"exists\""].iter().map(|k| t.matches(k).count()).sum::<usize>()
-    };
-    errs.is_empty() && leaves(&vs) > leaves(&vl)
-}
-
-fn unquoted_words(v: &Value) -> Vec<String> {
-    let mut out = vec![];
-    match v {
-        Value::Object(m) => {
-            if m.get("type").and_then(|t| t.as_str()) == Some("literal") && m.get("delimiter").and_then(|t| t.as_str()) == Some("none") {
-                if let Some(p) = m.get("phrase").and_then(|t| t.as_str()) {
-                    out.push(p.to_string());
-                }
-            }
-            // range bounds are bare words as well
-            if let (Some(t), Some(Value::String(val))) = (m.get("type").and_then(|t| t.as_str()), m.get("value")) {
-                if t == "inclusive" || t == "exclusive" {
-                    out.push(val.clone());
-                }
-            }
-            for x in m.values() {
-                out.extend(unquoted_words(x));
-            }
-        }
-        Value::Array(a) => {
-            for x in a {
-                out.extend(unquoted_words(x));
-            }
-        }
-        _ => {}
-    }
-    out
+/// attribution of "strict accepts, lenient differs": counterfactual, see c16_attr.rs
+fn classify_lenient_diff(s: &str, _strict: &UserInputAst, _lenient: &UserInputAst, _errs: &[String]) -> &'static str {
+    attribute_divergence(s)
 }
 
 /// does the tree contain a field name with a tab / newline that the input did not escape
@@ -131,6 +31,8 @@ fn field_with_raw_whitespace(v: &Value, s: &str) -> bool {
 fn search_panic_key(msg: &str) -> &'static str {
     if msg.contains("should be greater than or equal to doc") {
         KEY_SEEK_ASSERT
+    } else if msg.contains("attempt to subtract with overflow") {
+        KEY_RANGE_SEEK_OVERFLOW
     } else {
         "C16:search-panic"
     }
@@ -363,7 +265,7 @@ fn deep_inputs(depths: &[usize]) -> Vec<(String, String)> {
         v.push(("deep".into(), format!("{}a{}", "title:(".repeat(d), ")".repeat(d))));
         v.push(("deep".into(), format!("{}a b{}", "(a OR ".repeat(d), ")".repeat(d))));
         v.push(("deep".into(), "(".repeat(d)));
-        v.push(("deep".into(), format!("{}a", "NOT ".repeat(d))));
+        v.push(("deep".into(), format!("{}a", "NOT ".repeat(d.min(3000)))));
         v.push(("deep".into(), format!("{}a", "-(".repeat(d))));
     }
     v
@@ -407,6 +309,54 @@ fn child_main(ctx: &mut Ctx) -> bool {
 fn own_model_path() -> String {
     let args: Vec<String> = std::env::args().collect();
     args.iter().position(|a| a == "--model").and_then(|i| args.get(i + 1).cloned()).unwrap_or_else(|| "/verif/lean/.lake/build/bin/tvmodel".into())
+}
+
+/// does a child process finish this single input (no hang, no memory blow-up, clean exit)
+fn probe_completes(text: &str, secs: u64) -> bool {
+    let dir = tempfile::tempdir().unwrap();
+    let inp = dir.path().join("in.json");
+    let outp = dir.path().join("out.txt");
+    std::fs::write(&inp, serde_json::to_string(&vec![text]).unwrap()).unwrap();
+    let exe = std::env::current_exe().unwrap();
+    let cmd = format!("ulimit -v 8000000; exec '{}' C16 --tier quick --seed 1 --model '{}' --out /dev/null", exe.display(), own_model_path());
+    let mut child = match std::process::Command::new("sh")
+        .args(["-c", &cmd])
+        .env("C16_CHILD_IN", &inp)
+        .env("C16_CHILD_OUT", &outp)
+        .env("C16_CHILD_FROM", "0")
+        .stdout(std::process::Stdio::null())
+        .stderr(std::process::Stdio::null())
+        .spawn()
+    {
+        Ok(c) => c,
+        Err(_) => return false,
+    };
+    let t0 = std::time::Instant::now();
+    loop {
+        match child.try_wait() {
+            Ok(Some(st)) => return st.success() && std::fs::read_to_string(&outp).unwrap_or_default().contains("done 0"),
+            Ok(None) => {
+                let rss_pages: u64 = std::fs::read_to_string(format!("/proc/{}/statm", child.id())).ok().and_then(|t| t.split(' ').nth(1).and_then(|x| x.parse().ok())).unwrap_or(0);
+                if rss_pages * 4096 > 600_000_000 || t0.elapsed().as_secs() > secs {
+                    let _ = child.kill();
+                    let _ = child.wait();
+                    return false;
+                }
+                std::thread::sleep(std::time::Duration::from_millis(10));
+            }
+            Err(_) => return false,
+        }
+    }
+}
+
+/// the endless loop of `set_infallible`: the input has a non-nom Unicode space inside `IN [ … ]`
+/// and, counterfactually, completes once those characters are plain spaces
+fn is_set_loop(text: &str) -> bool {
+    if !set_loop_risk(text) {
+        return false;
+    }
+    let fixed: String = text.chars().map(|c| if c.is_whitespace() && !" \t\r\n".contains(c) { ' ' } else { c }).collect();
+    probe_completes(&fixed, 20)
 }
 
 /// run the inputs in child processes (address space limited, killed when no input completes
@@ -453,7 +403,7 @@ fn run_in_children(ctx: &mut Ctx, inputs: &[(String, String)], stall_secs: u64) 
                 None => {
                     // resident set of the child (pages): a parser that allocates without bound is stopped early
                     let rss_pages: u64 = std::fs::read_to_string(format!("/proc/{}/statm", child.id())).ok().and_then(|t| t.split(' ').nth(1).and_then(|x| x.parse().ok())).unwrap_or(0);
-                    if rss_pages * 4096 > 1_500_000_000 {
+                    if rss_pages * 4096 > 600_000_000 {
                         let _ = child.kill();
                         let _ = child.wait();
                         mem_blowup = true;
@@ -525,11 +475,10 @@ fn run_in_children(ctx: &mut Ctx, inputs: &[(String, String)], stall_secs: u64) 
         let (origin, text) = &inputs[bad];
         let shape: String = text.chars().take(24).collect();
         let case = if text.len() <= 4000 { json!({"kind":"string","text":text,"origin":origin,"in_child":true}) } else { json!({"kind":"string-gen","origin":origin,"len":text.len(),"prefix":shape}) };
-        if mem_blowup {
-            let key = if text.contains("IN") && text.contains('[') && text.chars().any(|c| c.is_whitespace() && !" \t\r\n".contains(c)) { KEY_SET_LOOP } else { "C16:memory-blowup" };
-            ctx.report.violation("oracle", key, format!("the parser allocates without bound (> 1.5 GB resident, process killed) on {origin} input {}", short(text)), case);
-        } else if timed_out {
-            ctx.report.violation("oracle", "C16:hang", format!("no answer within {stall_secs}s (process killed) on {origin} input {}", short(text)), case);
+        if mem_blowup || timed_out {
+            let how = if mem_blowup { "allocates without bound (> 600 MB resident, process killed)".to_string() } else { format!("gives no answer within {stall_secs}s (process killed)") };
+            let key = if is_set_loop(text) { KEY_SET_LOOP } else if mem_blowup { "C16:memory-blowup" } else { "C16:hang" };
+            ctx.report.violation("oracle", key, format!("the parser {how} on {origin} input {}", short(text)), case);
         } else {
             let key = if origin == "deep" { KEY_DEEP } else { "C16:abort" };
             ctx.report.violation("oracle", key, format!("process died ({status:?}: stack overflow or memory exhaustion) on {origin} input {}", short(text)), case);
@@ -839,6 +788,17 @@ fn replay_sem(ctx: &mut Ctx, case: &Value, text: &str) {
         p.set_conjunction_by_default();
     }
     let w = World { index, docs: vec![], parser_or: p.clone(), parser_and: p.clone() };
+    if std::env::var("C16_BT").is_ok() {
+        let _ = std::panic::take_hook();
+    }
+    let texts: Vec<String> = match std::env::var("C16_TEXTS") {
+        Ok(p) => serde_json::from_str(&std::fs::read_to_string(p).unwrap()).unwrap(),
+        Err(_) => vec![text.to_string()],
+    };
+    for t in &texts {
+        let rl = catch_unwind(AssertUnwindSafe(|| run_query(&w, &*p.parse_query_lenient(t).0)));
+        eprintln!("lenient {t:?} -> {:?}", rl.map_err(panic_text));
+    }
     let res = catch_unwind(AssertUnwindSafe(|| p.parse_query(text).map_err(|e| e.to_string()).and_then(|q| run_query(&w, &*q))));
     ctx.report.notes.push(format!("replay sem: {text:?} mode {mode}: real {:?}", res.as_ref().map_err(|_| "panic")));
     // the expectation is recomputed by the model from the stored request
@@ -918,7 +878,7 @@ pub fn run(ctx: &mut Ctx) {
     }
     if on("a") {
         // every string runs in a child process: a hang or a memory blow-up must not take the run down
-        run_in_children(ctx, &batch, 20);
+        run_in_children(ctx, &batch, 12);
     }
 
     // (b) fold correspondence
